@@ -8,6 +8,7 @@ Vocabulary as in C05; `RC.NE` = the range is inhabited as far as its own ends te
 -/
 import PoetryVerif.Proofs.VRangePred
 import PoetryVerif.Proofs.VRangeWalk
+import PoetryVerif.Proofs.VRangeInv
 
 set_option linter.unusedSimpArgs false
 set_option linter.unusedVariables false
@@ -140,6 +141,26 @@ theorem allows_any_no_sound_union (rs : List RC) (b : VC) (ho : ∀ c ∈ rs, c.
       (x = false → ∀ p, p.wf = true → Regular (boundsOf rs ++ boundsOf b.flatten) p →
         ¬ ((VC.union rs).allowsPlain p = true ∧ b.allowsPlain p = true)) :=
   unionAllowsAnyLoop_sound (rs.length + b.flatten.length + 1) rs b.flatten (by omega) ho ht hso hst
+
+/-- the same two answers against the real `VersionUnion.allows` (not only the disjunction over members): whenever
+`allows` returns on a regular probe it agrees with the answers.  `UnionOK`: members well-formed, tidy, inhabited,
+sorted, bounds mutually regular (then `allows` is the disjunction, C05 `union_allows_eq_plain_partial`). -/
+theorem union_answers_sound_allows (rs : List RC) (b : VC) (hokA : UnionOK rs)
+    (ht : ∀ c ∈ b.flatten, c.WF) (hst : SortedRC b.flatten) (hokB : ∀ ts, b = .union ts → UnionOK ts) :
+    ∃ x y, VC.allowsAll (.union rs) b = .ok x ∧ VC.allowsAny (.union rs) b = .ok y ∧
+      ∀ p, p.wf = true → Regular (boundsOf rs ++ boundsOf b.flatten) p →
+        ∀ u v, (VC.union rs).allows p = .ok u → b.allows p = .ok v →
+          (x = true → v = true → u = true) ∧ (y = false → ¬ (u = true ∧ v = true)) := by
+  have ho : ∀ c ∈ rs, c.WF := fun c hc => (hokA.1 c hc).1
+  obtain ⟨x, hx, hxs⟩ := allows_all_sound_union rs b ho ht
+  obtain ⟨y, hy, hys⟩ := allows_any_no_sound_union rs b ho ht hokA.2.1 hst
+  refine ⟨x, y, hx, hy, fun p hp hreg u v hu hv => ?_⟩
+  have eu := union_allows_eq_plain rs hokA p hp hreg.append_left u hu
+  have ev := VC.allows_eq_plain b hokB p hp (by
+    rw [VC.bounds_eq_flatMap]; exact hreg.append_right) v hv
+  refine ⟨fun hxt hvt => ?_, fun hyf h => ?_⟩
+  · rw [eu]; exact hxs hxt p hp hreg (by rw [← ev]; exact hvt)
+  · exact hys hyf p hp hreg ⟨by rw [← eu]; exact h.1, by rw [← ev]; exact h.2⟩
 
 /-- The property at full strength, for arbitrary constraints (unions included).  Proved above for
 non-union operands (`*_member`), range-vs-union containment and the soundness of the union merge walks
